@@ -133,8 +133,11 @@ def monitor(case):
                 data = a.get('data', []) if a['api'] == 'wb' else list(a.get('val', 0).to_bytes(8, 'little'))[:width]
                 if a['api'] == 'wu' and width > 8:
                     return None
-                if len(data) != width:
+                if len(data) < width:
                     return None
+                if len(data) >= 8 and side == 'tim' and width == 4 and a['reg'] in ('vcclo', 'vcchi', 'execlo', 'exechi'):
+                    return None     # timing writes the pair when a half is handed >= 8 bytes: outside the theorems
+                data = data[:width]     # surplus bytes are ignored
                 if obs.get('panic'):
                     return 'access %d: %s panicked' % (i, what)
                 sp.write_bytes(cells, data)
